@@ -11,8 +11,11 @@
      chk_pages  [C02] page count, boxes, rotation and content operators, as read by the reference reader and by
                 the library, are what the authoring program says (ContentOps model, documented rounding)
      chk_interactive  [C02, C03] the annotations and form fields the program authored are what the reference
-                reader finds on each page and under /AcroForm (module Interactive)                            *)
-EXTENDS Interactive
+                reader finds on each page and under /AcroForm (module Interactive)
+     chk_tagged [C02, C03] the logical structure tree the program authored is what the reference reader finds
+                under /StructTreeRoot, and the parent tree leads from every tagged marked-content sequence of
+                every page back to its structure element (module Tagged)                                      *)
+EXTENDS Tagged
 
 VARIABLES l
 tvars == <<allvars, l>>
@@ -24,7 +27,7 @@ TFile == /\ IsEvent("file")
          /\ Rec[l].built
          /\ FileStart(l)
 
-TScan == /\ l <= NRec /\ Rec[l].ev \in {"chk_file", "chk_lib", "chk_pages", "chk_resources", "chk_interactive"} /\ phase \notin {"idle", "done"}
+TScan == /\ l <= NRec /\ Rec[l].ev \in {"chk_file", "chk_lib", "chk_pages", "chk_resources", "chk_interactive", "chk_tagged"} /\ phase \notin {"idle", "done"}
          /\ FileStep(TRUE)
          /\ UNCHANGED l
 
@@ -120,7 +123,12 @@ TChkInteractive == /\ IsEvent("chk_interactive")
                    /\ IF InteractiveProblems = {} THEN TRUE ELSE PrintT(<<"PROBLEMS", ToJson([idx |-> l, problems |-> InteractiveProblems])>>) /\ FALSE
                    /\ UNCHANGED allvars
 
-TNext == TFile \/ TScan \/ TChkFile \/ TChkLib \/ TChkPages \/ TChkResources \/ TChkInteractive
+TChkTagged == /\ IsEvent("chk_tagged")
+              /\ phase = "done"
+              /\ IF TaggedProblems = {} THEN TRUE ELSE PrintT(<<"PROBLEMS", ToJson([idx |-> l, problems |-> TaggedProblems])>>) /\ FALSE
+              /\ UNCHANGED allvars
+
+TNext == TFile \/ TScan \/ TChkFile \/ TChkLib \/ TChkPages \/ TChkResources \/ TChkInteractive \/ TChkTagged
 TraceSpec == TInit /\ [][TNext]_tvars
 Prog == Progress(l)
 =============================================================================
